@@ -4,6 +4,16 @@ import PegVerif.Model.Compile
 -/
 namespace PegVerif
 
+/-! ### `push` / `ipush`: uniform views (the `act` special case prints no label and no jump) -/
+
+theorem compile_push_st (env : CEnv) (e : Expr) (r : String) (ko : Nat) (pd pmk : Bool) (st : CSt) :
+    (compile env (.push e r) ko pd pmk st).st = (compile env e ko pd pmk ⟨st.label + 1, st.sw⟩).st := by
+  cases e <;> simp only [compile]
+
+theorem compile_ipush_st (env : CEnv) (e : Expr) (r : String) (ko : Nat) (pd pmk : Bool) (st : CSt) :
+    (compile env (.ipush e r) ko pd pmk st).st = (compile env e ko pd pmk ⟨st.label + 1, st.sw⟩).st := by
+  cases e <;> simp only [compile]
+
 mutual
   theorem compile_mono (env : CEnv) : ∀ (e : Expr) (ko : Nat) (pd pmk : Bool) (st : CSt),
       st.label ≤ (compile env e ko pd pmk st).st.label
